@@ -151,8 +151,23 @@ func verifHarness_C03_write_failure_and_overflow() {
 	if l.g.pollers[0].addConn(c) != nil {
 		return
 	}
+	// every write entry point ends the connection the same way
+	call := verifChoose("write_call", 3)
+	doWrite := func(b []byte) (int, error) {
+		switch call {
+		case 1:
+			return c.Writev([][]byte{b[:1], b[1:]})
+		case 2:
+			n, err := c.Sendfile(vkNewFile(b, 0), 0)
+			return int(n), err
+		}
+		return c.Write(b)
+	}
 	if overflow {
-		_, err := c.Write(verifBytes("big", 3))
+		if call == 2 {
+			return // a queued file is not counted against the write-buffer bound
+		}
+		_, err := doWrite(verifBytes("big", 3))
 		verifAssertD(errors.Is(err, ErrOverflow) || errors.Is(err, errOverflow), "overflowing-write-reports-overflow", "")
 		verifJoin()
 		l.finalChecks(c, f, []error{errOverflow}, "overflow")
@@ -162,7 +177,7 @@ func verifHarness_C03_write_failure_and_overflow() {
 		if racing {
 			verifGo(func() { _ = c.CloseWithError(verifErrA) })
 		}
-		_, err := c.Write(verifBytes("w", 2))
+		_, err := doWrite(verifBytes("w", 2))
 		verifJoin()
 		if !racing {
 			verifAssertD(errors.Is(err, syscall.EPIPE), "failed-write-reports-error", "")
